@@ -119,6 +119,8 @@ def project_velocities(scene):
         b["v"] = ub[:3].tolist()
         if b["kind"] == "rigid":
             b["w"] = ub[3:].tolist()
+    for i, rd in enumerate(new.get("rods", [])):
+        rd["u0"] = u[B.rods[i].uDOF].tolist()
     return new
 
 
@@ -144,6 +146,8 @@ def body_states(B, t, q, u):
             d["p"] = qb[3:].tolist()
             d["w"] = ub[3:].tolist()
         st["bodies"][i] = d
+    if getattr(B, "rods", None):
+        st["rods"] = {i: {"q": np.array(q[rod.qDOF]).tolist(), "u": np.array(u[rod.uDOF]).tolist()} for i, rod in enumerate(B.rods)}
     mx = {}
     for k, (lw, c) in enumerate(zip(B.scene.get("laws", []), B.laws)):
         if lw["type"] == "maxwell":
